@@ -99,3 +99,32 @@ def structure_ops(E, order):
     p0 = (int(np.asarray(M.subs)[0, 1]), int(np.asarray(M.subs)[0, 0]))  # (col, row) of M's first entry = tensor position
     ref3[p0] = ref3[p0] + ref3[p0]
     E.eq(O.den(M3), ref3, "duplicates summed by the copying sptenmat constructor")
+
+
+@ob("C06", params=[dict(order=o, key=k) for o in itertools.permutations(range(3)) for k in range(4)],
+    bounds="2x4 sptenmat (copy=False) with 3 stored symbolic values in every stored order; one assignment M[i, j] = v that overwrites, appends at the end, or inserts in front of two stored entries")
+def sptenmat_setitem(E, order, key):
+    """sptenmat.__setitem__: the assigned cell changes, every other cell keeps its value, whatever the stored order"""
+    tshape = (2, 4)
+    pos = ((0, 1), (1, 2), (1, 3))
+    vals = [E.real(f"x{i}", nonzero=True) for i in range(3)]
+    subs = np.array([pos[i] for i in order])
+    v = _col(E, [vals[i] for i in order])
+    M = ttb.sptenmat(subs, v, np.array([0]), np.array([1]), tshape, copy=False)
+    ref = O.zeros(tshape)
+    for p, x in zip(pos, vals):
+        ref[p] = x
+    E.eq(O.den(M), ref, "sptenmat denotes its entries")
+    target = [(1, 2), (1, 0) if False else (0, 0), (1, 3), (0, 3)][key]
+    w = E.real("w", nonzero=True)
+    M[target[0], target[1]] = w
+    ref[target] = w
+    O.wellformed(E, M, "sptenmat after assignment")
+    E.eq(O.den(M), ref, f"sptenmat after M[{target}] = w")
+
+
+def _col(E, vals):
+    from symx import npenv
+    if E.sym:
+        return npenv.obj_array(vals, (len(vals), 1))
+    return np.array(vals, dtype=float).reshape(len(vals), 1)
